@@ -1143,7 +1143,37 @@ def gen_c11(rng, tier):
         base["lp"] = ("greedy", 0.0)
     if rng.random() < 0.4:
         base["int_ctx"] = True      # integer-typed history, fractional queries (the scaled queries below)
+    if rng.random() < 0.08:
+        wide = gen_c11_wide(rng)
+        if wide is not None:
+            return wide
     return {"base": base, "seed2": rng.randint(0, 10**9)}
+
+def gen_c11_wide(rng):
+    """54 to 62 hyper-planes per table: a hash code accumulated in binary64 loses its low bits once a high bit is set.  A stored row and
+    a query that differ in the sign of plane 0 only (constructed from the planes, which are a function of seed and width) must not
+    collide."""
+    for _ in range(40):
+        nd = rng.randint(54, 62); seed = rng.randint(0, 10**6)
+        try:
+            from mabwiser.mab import MAB, LearningPolicy, NeighborhoodPolicy
+            probe = MAB([1, 2], LearningPolicy.EpsilonGreedy(0), NeighborhoodPolicy.LSHNearest(nd, 1), seed=seed)
+            probe.fit([1], [0.0], [[1.0, 1.0]])
+            pl = np.asarray(probe._imp.table_to_plane[0], dtype=float)
+        except Exception:
+            return None
+        p0 = pl[:, 0]
+        orth = np.array([-p0[1], p0[0]]) / np.linalg.norm(p0)
+        a = orth + 1e-6 * p0; b = orth - 1e-6 * p0
+        sa, sb = (a @ pl) > 0, (b @ pl) > 0
+        if (sa != sb).sum() == 1 and sa[0] != sb[0] and sa[54:].any():
+            rows = [list(map(float, a))] + [[float(rng.randint(-5, 5)), float(rng.randint(-5, 5))] for _ in range(rng.randint(2, 6))]
+            ds = [3] + [rng.choice([3, 7]) for _ in rows[1:]]
+            rs = [1.0] + [float(rng.randint(0, 4)) for _ in rows[1:]]
+            base = {"arms": [3, 7], "lp": ("greedy", 0.0), "np": ("lsh", nd, 1, None), "seed": seed, "ops": [("fit", ds, rs, rows)],
+                    "label": "int", "mode": "exact", "reward_style": "smallint"}
+            return {"base": base, "seed2": rng.randint(0, 10**9), "extra_queries": [("random", list(map(float, b)))]}
+    return None
 
 def sign_patterns(X, planes):
     return [tuple(map(tuple, (np.dot(X, planes[k]) > 0).astype(int))) for k in sorted(planes.keys())]
@@ -1171,6 +1201,7 @@ def run_c11(t):
             queries.append(("zero", [0.0] * d))
         else:
             queries.append(("random", [float(rng.randint(-6, 6)) for _ in range(d)]))
+    queries += [tuple(q) for q in t.get("extra_queries", [])]
     kind, hp = base["lp"][0], base["lp"][1]
     for q in queries:
         x = np.asarray([q[1]], dtype=float)
